@@ -10,7 +10,8 @@ import OV.Drivers.Loop
 * `node := N op dom <n> (name|-)* <n> out* <n> attr* <n> (key graph)*`, `attr := k=i:<int> | k=is:<ints> | k=t:<tok> | k=o:<id> | k=r:<ref>`
 * the empty string (default domain, skipped optional output) is written `~`.
 
-Answer: `OK mod=<0|1> err=<-|msg> NEED <k> key* HIST <k> h* <graph>`.
+Answer: `OK mod=<0|1> err=<-|msg> prune=<0|1> NEED <k> key* HIST <k> h* <graph>` (`prune`: nothing popped by
+`_clear_unused_initializers` is still referenced in the result).
 -/
 namespace OV.Drivers.C03
 open OV.C03
@@ -224,6 +225,16 @@ end
 
 def sanitize (s : String) : String := s.map fun c => if c == ' ' then '_' else c
 
+/-- does the name occur as a node input or a graph output anywhere in the graph (all nesting levels)? -/
+def occursIn : Nat → Graph → Name → Bool
+  | 0, _, _ => true
+  | f + 1, g, x => g.outputs.contains x ||
+      g.nodes.any fun n => n.inputs.contains (some x) || n.subs.any fun s => occursIn f s.2 x
+
+/-- the side condition `hprune` of `fold_fragmentA_preserves_partial`, evaluated on the result -/
+def pruneOk (st : St) (g0 g' : Graph) : Bool :=
+  st.removed.all fun x => !g0.inputs.contains x && !occursIn 16 g' x
+
 def handle (args : List String) : String :=
   match args with
   | "fold" :: ts =>
@@ -234,6 +245,7 @@ def handle (args : List String) : String :=
       " ".intercalate (
         ["OK", "mod=" ++ (if st.modified then "1" else "0"),
          "err=" ++ (match st.err with | some e => sanitize e | none => "-"),
+         "prune=" ++ (if pruneOk st c.g g' then "1" else "0"),
          "NEED", toString st.need.length] ++ st.need.reverse ++
         ["HIST", toString st.hist.length] ++ st.hist.reverse ++ showGraph 64 g')
   | _ => "bad-op"
